@@ -513,8 +513,95 @@ fn gen_value(rng: &mut Prng, i: usize) -> String {
     }
 }
 
+/// all ordered forests with exactly `n` element nodes over the names a, b, c (normal elements) and br (void leaf)
+fn forests(n: usize, memo: &mut Vec<Option<Vec<Vec<Node>>>>) -> Vec<Vec<Node>> {
+    if let Some(Some(v)) = memo.get(n) {
+        return v.clone();
+    }
+    let mut out: Vec<Vec<Node>> = Vec::new();
+    if n == 0 {
+        out.push(vec![]);
+    } else {
+        for k in 1..=n {
+            // first tree has k nodes, the rest of the forest n - k
+            let rests = forests(n - k, memo);
+            let mut firsts: Vec<Node> = Vec::new();
+            let kids = forests(k - 1, memo);
+            for nm in ["a", "b", "c"] {
+                for ch in &kids {
+                    firsts.push(Node::El { name: nm.to_string(), disp: nm.to_string(), attrs: String::new(), kind: 'n', children: ch.clone() });
+                }
+            }
+            if k == 1 {
+                firsts.push(Node::El { name: "br".to_string(), disp: "br".to_string(), attrs: String::new(), kind: 'v', children: vec![] });
+            }
+            for f in &firsts {
+                for r in &rests {
+                    let mut v = vec![f.clone()];
+                    v.extend(r.iter().cloned());
+                    out.push(v);
+                }
+            }
+        }
+    }
+    while memo.len() <= n {
+        memo.push(None);
+    }
+    memo[n] = Some(out.clone());
+    out
+}
+
+/// thorough tier: every forest of <= 5 element nodes over {a, b, c, br} x every filter of a fixed list that is inside the
+/// property's quantifier on it and whose first path element occurs (a text child is added to every childless normal
+/// element of every other forest so that text tokens take part)
+fn gen_exhaustive(emit: &mut dyn FnMut(Value)) {
+    let mut memo: Vec<Option<Vec<Vec<Node>>>> = Vec::new();
+    let paths: [&[&str]; 7] = [&["a"], &["b"], &["a", "b"], &["b", "a"], &["a", "b", "c"], &["br"], &["a", "br"]];
+    let sels: [Option<&str>; 3] = [None, Some("c"), Some("*")];
+    let mut idx = 0usize;
+    for n in 1..=5 {
+        for doc in forests(n, &mut memo) {
+            idx += 1;
+            let mut doc = doc;
+            if idx % 2 == 0 {
+                fn fill(ns: &mut Vec<Node>) {
+                    for n in ns.iter_mut() {
+                        if let Node::El { kind, children, .. } = n {
+                            if *kind == 'n' {
+                                if children.is_empty() {
+                                    children.push(Node::Verb { kind: "text", raw: "t".to_string(), marks: vec![] });
+                                } else {
+                                    fill(children);
+                                }
+                            }
+                        }
+                    }
+                }
+                fill(&mut doc);
+            }
+            for action in ["append_child", "prepend_child", "replace"] {
+                for path in paths.iter() {
+                    if count_name(&doc, path[0]) == 0 {
+                        continue;
+                    }
+                    for sel in sels.iter() {
+                        let f = FSpec::Html { action: action.to_string(), path: path.iter().map(|s| s.to_string()).collect(), sel: sel.map(|s| s.to_string()), value: "<i>v</i>".to_string() };
+                        if in_domain(&doc, &f).is_err() {
+                            continue;
+                        }
+                        emit(json!({"doc": doc.iter().map(node_json).collect::<Vec<_>>(), "filters": [f.to_json()], "exh": true}));
+                    }
+                }
+            }
+        }
+    }
+}
+
 fn gen(args: &Args, emit: &mut dyn FnMut(Value)) {
     let mut rng = seeded(args.seed);
+    if args.tier == "thorough" {
+        gen_exhaustive(emit);
+    }
     let mut made = 0;
     let mut attempts = 0;
     while made < args.n && attempts < args.n * 20 {
